@@ -61,7 +61,12 @@ def predict_sign(cfg, g, tol=1e-6, q0=None):
         if not (np.all(np.isfinite(want)) and np.all(np.isfinite(b))):
             continue
         scale = max(float(np.max(np.abs(want))), 1e-300)
-        err = float(np.max(np.abs(b - want))) / scale
+        dev = np.abs(b - want) / scale
+        if 'r_singularity' in k and want.ndim == 1 and want.size == n and n > 10 and int(np.sum(dev > tol)) <= 2:
+            # the root selection of r_singularity is discontinuous at round-off level: isolated branch flips at one or two grid points are not a
+            # property violation (the scalar minimum and every other point are still compared)
+            dev = np.where(dev > tol, 0.0, dev)
+        err = float(np.max(dev)) if dev.size else 0.0
         checked += 1
         if err > tol and scale > 1e-200:
             out.append(dict(key='%s:%s' % (g, k), what='%s does not map by sign %+d under %s (rel err %.3g)' % (k, sg[gi], g, err),
@@ -116,6 +121,15 @@ def predict_shift(cfg, k, tol=1e-6, q0=None):
         # the property is restricted to inputs on which the first-order solve converges: from the flat initial guess Newton does not reach
         # the shifted solution here (which exists: the shifted original solution has residual ~1e-14), so nothing is claimed
         return [], 0
+    if abs(q1.iota - q0.iota) > tol * max(1.0, abs(q0.iota)):
+        # the discrete sigma equation can have more than one solution on a coarse grid: if the SHIFTED ORIGINAL solution solves the shifted
+        # problem to round-off and Newton (from its flat initial guess) settled on another root, nothing the property claims is contradicted
+        try:
+            r_ = q1._residual(np.concatenate(([q0.iota], np.roll(q0.sigma, -k)[1:])))
+            if float(np.max(np.abs(r_))) < 1e-9 * max(1.0, float(np.max(np.abs(q0.sigma))) ** 2):
+                return [], 0
+        except Exception:
+            pass
     if hasattr(q0, 'grad_grad_B_alt') and q1.order != 'r1':
         q1.calculate_grad_grad_B_tensor(two_ways=True)
     a0, a1 = flat_attrs(q0), flat_attrs(q1)
@@ -137,7 +151,10 @@ def predict_shift(cfg, k, tol=1e-6, q0=None):
         if not (np.all(np.isfinite(want)) and np.all(np.isfinite(b))):
             continue
         scale = max(float(np.max(np.abs(want))), 1e-300)
-        err = float(np.max(np.abs(b - want))) / scale
+        dev = np.abs(b - want) / scale
+        if 'r_singularity' in name and np.ndim(want) == 1 and np.size(want) == n and n > 10 and int(np.sum(dev > tol)) <= 2:
+            dev = np.where(dev > tol, 0.0, dev)          # isolated round-off branch flips of the root selection (see predict_sign)
+        err = float(np.max(dev)) if np.size(dev) else 0.0
         checked += 1
         if err > tol and scale > 1e-200:
             out.append(dict(key='shift:' + name, what='%s is not the cyclic shift of the original after moving the origin by %d grid points (rel err %.3g)' % (name, k, err),
